@@ -7,7 +7,7 @@ import ast
 from ..cfg import build_cfg, calls_in, node_calls
 from ..core import Ctx, property_info, rule, share
 from ..model import AnalysisError, FuncInfo, walk_no_nested
-from ..q import A, L, X, alternatives, call_name_of, control_deps, dep_texts, entry_conditions, expand, expand_at, flows, func_text, path_conditions, tests_like, is_self_attr, kwarg, stores, unparse
+from ..q import A, L, X, leaf_conditions, reach_env, reach_table, cmp_atom, leaves_at, node_containing, alternatives, call_name_of, control_deps, dep_texts, entry_conditions, expand, expand_at, flows, func_text, path_conditions, tests_like, is_self_attr, kwarg, stores, unparse
 from .c10 import flag_liveness_and_overrides
 from .c15 import shape_validation
 
@@ -64,15 +64,19 @@ def _json_shape(fi: FuncInfo, ret, v: ast.expr, depth: int = 0) -> str | None:
             return "empty sequence" if not v.args else None
         return None
     if isinstance(v, ast.Name):
-        # the value itself: only on paths where an isinstance test against JSON-native types held
-        for txt, pol, t in control_deps(fi, ret):
-            if pol and isinstance(t.ast, ast.Call) and call_name_of(t.ast) == "isinstance" and len(t.ast.args) == 2 and isinstance(t.ast.args[0], ast.Name) and t.ast.args[0].id == v.id:
+        # the value itself: only where an isinstance test against JSON-native types held - with every such test false the return is unreachable
+        g = build_cfg(fi.node)
+        native_tests = set()
+        for t in g.nodes:
+            if t.kind == "test" and isinstance(t.ast, ast.Call) and call_name_of(t.ast) == "isinstance" and len(t.ast.args) == 2 and isinstance(t.ast.args[0], ast.Name) and t.ast.args[0].id == v.id:
                 tp = t.ast.args[1]
                 if isinstance(tp, ast.Name) and isinstance(fi.module.globals.get(tp.id), ast.Tuple):
                     tp = fi.module.globals[tp.id]  # a module constant holding the tuple of types
                 names = {unparse(e) for e in tp.elts} if isinstance(tp, ast.Tuple) else {unparse(tp)}
                 if names <= JSON_NATIVE:
-                    return "json-native value"
+                    native_tests.add(t.id)
+        if native_tests and ret.id not in reach_env(g, lambda t: False if t.id in native_tests else None):
+            return "json-native value"
         return None
     return None
 
@@ -107,18 +111,20 @@ def encoder_return_shapes(ctx: Ctx) -> None:
     ctx.ob("JsonSerializer.write dumps encode(obj)", ok, at=js, construct="json dump", msg="json output not the encoded form")
 
 
-def _key_case(fi: FuncInfo, y_node, key: ast.expr) -> str | None:
-    """How a yielded key is chosen: 'wrapper-or-local' when it is var.wrapper exactly if truthy, else var.local_name."""
-    k = expand(fi.node, key)
-    txt = L(fi, k)
-    if txt in (A("_.wrapper or _.local_name"), A("_.wrapper if _.wrapper else _.local_name")):
-        return "both"
-    deps = control_deps(fi, y_node)
-    if txt == "_.wrapper":
-        return "wrapper" if any(t == "_.wrapper" and pol for t, pol, _ in deps) else None
-    if txt == "_.local_name":
-        return "local" if any(t == "_.wrapper" and not pol for t, pol, _ in deps) else None
-    return None
+def _key_cases(fi: FuncInfo, y_node, key: ast.expr) -> list[str | None]:
+    """How a yielded key is chosen, per value that can flow into it: 'wrapper' = var.wrapper where it was tested truthy, 'local' =
+    var.local_name where var.wrapper was tested falsy (an if/else, a conditional expression, `a or b`, a temporary); None = anything else."""
+    out: list[str | None] = []
+    for leaf, chain in flows(fi, y_node, key):
+        conds = leaf_conditions(fi, y_node, leaf, chain)
+        txt = L(fi, leaf)
+        if txt == "_.wrapper":
+            out.append("wrapper" if ("_.wrapper", True) in conds else None)
+        elif txt == "_.local_name":
+            out.append("local" if ("_.wrapper", False) in conds else None)
+        else:
+            out.append(None)
+    return out
 
 
 @rule("C04.R2")
@@ -127,8 +133,8 @@ def key_agreement(ctx: Ctx) -> None:
     nv = ctx.repo.func(f"{SER}:DictEncoder.next_value")
     g = build_cfg(nv.node)
     ys = [y.value for y in walk_no_nested(nv.node) if isinstance(y, ast.Yield) and isinstance(y.value, ast.Tuple) and len(y.value.elts) == 2]
-    cases = [_key_case(nv, g.node_of(y), y.elts[0]) for y in ys]
-    ok = bool(ys) and None not in cases and (("both" in cases) or {"wrapper", "local"} <= set(cases))
+    cases = [c for y in ys for c in _key_cases(nv, node_containing(g, y), y.elts[0])]
+    ok = bool(ys) and None not in cases and {"wrapper", "local"} <= set(cases)
     ctx.ob("next_value names a value by var.wrapper exactly when the field has one, else by var.local_name", ok, at=nv, construct="encoder keys", msg=f"encoder key cases are {cases}")
     for y in ys:
         v = expand(nv.node, y.elts[1])
@@ -294,3 +300,35 @@ def derived_type_entry_takes_precedence(ctx: Ctx) -> None:
     nd = tests_like(fi, "isinstance(_['value'], dict)")
     txt = [n for n in g.stmts() if any(call_name_of(c) == "bind_text" for c in node_calls(n))]
     ctx.ob("bind_derived_value: non-dict values are bound as text before any class lookup", len(nd) >= 1 and bool(txt) and all(any(g.only_if(n.id, t.id, False) for t in nd) for n in txt), at=fi, construct="derived text first", msg="dispatch order changed")
+
+
+@rule("C04.R9")
+def candidate_score_counts_falsy_values(ctx: Ctx) -> None:
+    """ClassType.score_object (which candidate class a union / base-typed value is decoded into) gives a typed non-None value its full
+    weight whether or not it is truthy: 0, 0.0 and False are values, not absences."""
+    from ..q import callable_info
+
+    so = ctx.repo.func("xsdata.formats.dataclass.compat:ClassType.score_object")
+    scorers = [so] + [ci[0] for n in ast.walk(so.node) if isinstance(n, ast.FunctionDef) and n is not so.node for ci in [callable_info(ctx.repo, so, ast.Name(id=n.name, ctx=ast.Load()))] if ci]
+    done = 0
+    for fi in scorers:
+        g = build_cfg(fi.node)
+        consts = [(r, r.ast.value.value) for r in g.returns() if isinstance(r.ast.value, ast.Constant) and isinstance(r.ast.value.value, (int, float)) and not isinstance(r.ast.value.value, bool)]
+        params = [a.arg for a in fi.node.args.args if a.arg not in ("self", "cls")]
+        if len(consts) < 2 or len(params) != 1:
+            continue
+        p = params[0]
+        top = max(v for _, v in consts)
+        for r, v in consts:
+            if v != top:
+                continue
+            tab = reach_table(fi, r, [{f"{p} is not None": True, f"{p} is None": False}, {p: True}], raw=True)
+            if tab is None:
+                ctx.abstain(f"weight guard of {fi.name}", at=fi)
+            else:
+                bad = sorted(k for k, val in tab.items() if val != k[0])
+                ctx.ob(f"{fi.name}: the full weight {top} is given exactly to non-None values (falsy ones included)", not bad, at=so, node=r.ast, construct="score of falsy values",
+                       msg=f"(is not None, is truthy) rows that differ: {bad}: Measure(value=0) scores below Label(value='0'), so 0 / 0.0 / False decode into the wrong class")
+            done += 1
+    if not done:
+        ctx.abstain("per-value scorer of score_object", at=so)
